@@ -31,7 +31,9 @@ CHECKS = {
         text=("Theorems (Props/C02.lean + Props/C02Emu.lean, 25): for every capacity > 24 and every protocol-conformant program (clocks read "
               "from the library clock right before each emit, zeroed event structs, no forged OF codes) that returns, the "
               "file has non-decreasing clocks, properly paired non-nested flush markers, well-formed records, and decodes "
-              "exactly (conformant_stream_valid, via the invariant step_valid/run_valid); the statement is proved false "
+              "exactly (conformant_stream_valid, via the invariant step_valid/run_valid), and the emulator's byte-level stream cursor of C12 "
+              "accepts that file: header, exact tiling, monotone clocks, whatever lies in memory beyond it "
+              "(conformant_stream_accepted, composing the runtime model with the cursor model); the statement is proved false "
               "for the code before the repair (nested_markers_before_fix, a `decide` witness replayed on libovni, see "
               "KNOWN_FINDINGS.txt 'fixed'). Tie: as C01, plus an independent validity oracle (tiling, clocks, marker "
               "pairing, metadata completeness) and the real `ovniemu -l` accepting every generated trace; a sweep of "
